@@ -80,6 +80,10 @@ def run(patch, checks, tier, seeds):
                 print(c, "seed", s, "rc", rc, "violations", len(v), "|", first)
     finally:
         sh("git -C /repo checkout -- .")
+        # the harness binaries were built from the patched tree: rebuild them from the restored one
+        sys.path.insert(0, os.path.dirname(os.path.abspath(__file__)))
+        import lib
+        lib.build_harness(); lib.build_harness("atari2600")
     return results
 
 
